@@ -588,6 +588,11 @@ CORPUS = [
     ("(seq (d (i -32768) (tag e c 0 enum)))", "(seq (i -32768))"),              # DEFAULT key absent
     ("(set (d (i 7) int) (r bool))", "(seq (i 7) (b 1))"),
     ("(seqof int)", "(of)"),                                                    # native [] -> value
+    # DER order of a SET member that is an untagged CHOICE whose chosen alternative is a *tagged* CHOICE: the key is the
+    # tag the alternative goes out under ([1] / [2]), not a tag further inside; Python mapping and value object alike
+    ("(set (r bool) (r (str 4)) (r (choice (r (tag e c 1 (choice (r int) (r (str 12))))) (r null))))", "(seq (b 1) (s 41) (ch 0 (ch 0 (i 5))))"),
+    ("(set (r (tag i c 1 int)) (r (choice (r (tag e c 2 (choice (r (tag i c 0 (str 4))) (r (tag i c 5 int))))) (r bool))) (o (tag i c 3 null)))",
+     "(seq (i 7) (ch 0 (ch 0 (s 6162))) absent)"),
     ("(choice (r (seqof int)))", "(ch 0 (of))"),
     ("(seq (r (tag e c 0 (seq))))", "(seq (seq))"),                             # native {} -> value
     ("(str 19)", "(s 3d2e62)"),                                                 # bytes + chunking keeps base tag only
